@@ -15,6 +15,7 @@ MUTANTS = [
     ("stale-capture", F, "            decay_models: tuple[str, ...] = (\n                *known_decay_models,\n                *(self._additional_decay_models or ()),\n            )\n", "", None) if False else
     ("one-shot", F, "            self._additional_decay_models = (*self._additional_decay_models, *models)", "            self._additional_decay_models = iter((*self._additional_decay_models, *models))", "C06.6"),
     ("forget-earlier", F, "            self._additional_decay_models = (*self._additional_decay_models, *models)", "            self._additional_decay_models = models", "C06.7"),
+    ("guard-negated", F, "        if self._additional_decay_models is None:", "        if not self._additional_decay_models is None:", "C06.7"),
     ("first-only", F, "        if self._additional_decay_models is None:\n            self._additional_decay_models = models", "        if self._additional_decay_models is None:\n            self._additional_decay_models = models[:1]", "C06.7"),
     ("placeholder-mismatch", F, '                    "MODEL_NAME_PLACEHOLDER", modelstr', '                    "MODEL_NAMES_PLACEHOLDER", modelstr', "C06.1"),
     ("wrong-terminal", F, '            if t.name == "MODEL_NAME":', '            if t.name == "LABEL":', "C06.1"),
